@@ -91,3 +91,40 @@ target(M + "_dump_conflicts", params=dict(name=ANY, paths=Tup(Opt(STR), Opt(STR)
 
 undecided("weave and LCA text merges; resolving with take-this / take-other (TextConflict._resolve over tree transforms)")
 undecided("merge3 itself (external package): its contract is the stated assumption")
+
+# ---- resolving with take-this / take-other (TextConflict._resolve): the chosen helper file takes the item's name and file id, the
+#      conflicted item takes the helper's name (so that it is deleted with the helpers), and the transform is applied once, last
+ghost(step=INT)
+TC = cls("TextConflict", fields={"path": STR, "file_id": BYTES})
+TidOfId = ufunc("TidOfId", BYTES, STR)
+TidOfPath = ufunc("TidOfPath", STR, STR)
+ParentTid = ufunc("ParentTid", STR, STR)
+BaseName = ufunc("BaseName", STR, STR)
+assumed("tt.trans_id_file_id", pure=True, no_raise=True, returns=lambda c: TidOfId(c.args[0]))
+assumed("tt.trans_id_tree_path", pure=True, no_raise=True, returns=lambda c: TidOfPath(c.args[0]))
+assumed("tt.get_tree_parent", pure=True, no_raise=True, returns=lambda c: ParentTid(c.args[0]))
+assumed("osutils.basename", pure=True, no_raise=True, returns=lambda c: BaseName(c.args[0]))
+
+
+def winner_path(c):
+    return c.self.path + lift(".") + c.winner_suffix
+
+
+assumed("tt.adjust_path", result=NONE, modifies=["g.step"], raises={"Exception": "unchanged"},
+        requires=lambda c: If(c.g.step == 0,
+                              # the chosen helper gets the item's name (stays in its own directory)
+                              And(c.args[0] == BaseName(c.self.path), c.args[1] == ParentTid(TidOfPath(winner_path(c))), c.args[2] == TidOfPath(winner_path(c))),
+                              # the conflicted item gets the helper's name
+                              And(c.g.step == 1, c.args[0] == BaseName(winner_path(c)), c.args[1] == ParentTid(TidOfId(c.self.file_id)),
+                                  c.args[2] == TidOfId(c.self.file_id))),
+        ensures=lambda c: c.g.step == c.old.g.step + 1)
+assumed("tt.unversion_file", result=NONE, modifies=["g.step"], raises={"Exception": "unchanged"},
+        requires=lambda c: And(c.g.step == 2, c.args[0] == TidOfId(c.self.file_id)), ensures=lambda c: c.g.step == 3)
+assumed("tt.version_file", result=NONE, modifies=["g.step"], raises={"Exception": "unchanged"},
+        requires=lambda c: And(c.g.step == 3, c.args[0] == TidOfPath(winner_path(c)), c.kw["file_id"] == c.self.file_id), ensures=lambda c: c.g.step == 4)
+assumed("tt.apply", modifies=["g.step"], raises={"Exception": "unchanged"}, requires=lambda c: c.g.step == 4, ensures=lambda c: c.g.step == 5)
+target("breezy/bzr/conflicts.py::TextConflict._resolve", params=dict(tt=ANY, winner_suffix=STR),
+       requires=lambda c: c.g.step == 0,
+       ensures={"the_chosen_side_replaces_the_item_and_the_transform_is_applied_last": lambda c: c.g.step == 5},
+       raises={"Exception": True}, canary=lambda c: c.g.step == 0,
+       note="take-this / take-other: the whole THIS or OTHER helper becomes the file (with the file id); the old content goes where the helper was")
